@@ -138,7 +138,7 @@ func seqBucket(s int) string {
 func runC06(b *mon.B) {
 	r := gen.New(uint64(b.Seed), 0xC06, uint64(b.Index))
 	srv := startLibServer()
-	srv.Net.KeepLog = false
+	srv.Net.SetKeepLog(false)
 	defer srv.Stop()
 	secret := []byte("c06/" + r.Alnum(10))
 	conn := srv.dial(1, secret)
